@@ -106,7 +106,11 @@ class InsecureHomeKitProtocol(asyncio.Protocol):
         self.transport = transport
 
     def connection_lost(self, exception: Exception) -> None:
-        self.connection._connection_lost(exception)
+        connection = self.connection
+        if connection.transport is None or connection.transport is self.transport:
+            connection._connection_lost(exception)
+        # else: this transport was already superseded by a newer one, its loss
+        # must not tear down the connection that is in use now
         self._cancel_pending_requests()
 
     def _handle_timeout(self, fut: asyncio.Future[Any]) -> None:
